@@ -385,6 +385,21 @@ pub struct MapEnumValues {
     pub m: BTreeMap<String, DataOnly>,
 }
 
+/// a map KEY that is an enum with data: `from_type` needs several exploration passes for the key tracer
+#[derive(Serialize, Deserialize, Debug, PartialEq, Eq, PartialOrd, Ord, Clone)]
+pub enum KeyEnum {
+    Id(i32),
+    Name(String, bool),
+    Anon,
+    Pair { a: u8, b: i64 },
+}
+
+#[derive(Serialize, Deserialize, Debug, PartialEq, Clone)]
+pub struct MapEnumKeys {
+    pub m: BTreeMap<KeyEnum, i32>,
+    pub v: Vec<Option<BTreeMap<KeyEnum, String>>>,
+}
+
 #[derive(Serialize, Deserialize, Debug, PartialEq, Clone)]
 pub struct MapOfMaps {
     pub m: BTreeMap<String, BTreeMap<i32, f32>>,
@@ -594,7 +609,7 @@ plain!(
     Wrap<AllKinds>, Wrap<DataOnly>, HasColor, OptColor, EnumVec, EnumInStructInVec, Wrap<EnumNested>, Wrap<Payloads>,
     Wrap<ManyVariants>, OptEnum, ResultField, EnumWithUnitInVec, Opts, OptStruct, OptVec, VecOpt, VecVec, VecStruct,
     SeqCollections, HashSetField, Deep, Arrays, Tuples, RootTuple, TupleInVec, HMap, BMapStruct, BMapIntKey, BMapVecValues,
-    MapInVec, MapEnumValues, MapOfMaps, Strs, Bytes, BytesNested, Chars, Renamed, Camel, Scream, Wrap<RenamedVariants>,
+    MapInVec, MapEnumValues, MapEnumKeys, MapOfMaps, Strs, Bytes, BytesNested, Chars, Renamed, Camel, Scream, Wrap<RenamedVariants>,
     HasRenamedColor, Defaults, ContainerDefault, Skips, Wrap<SkipsInVariant>, Wrap<Meters>, TransparentStruct, HasTransparent,
     BorrowStr<'static>, BorrowBytes<'static>, BorrowCow<'static>, BorrowNested<'static>, Wrap<BorrowEnum<'static>>,
     Wrap<i32>, Wrap<Vec<Option<String>>>, Wrap<Wrap<Inner>>, serde_arrow::utils::Item<i64>, serde_arrow::utils::Item<DataOnly>,
@@ -670,6 +685,7 @@ macro_rules! zoo_types {
             (BMapVecValues, "BMapVecValues", "map", ["maps"]),
             (MapInVec, "MapInVec", "map-in-vec", ["maps"]),
             (MapEnumValues, "MapEnumValues", "map-enum-values", ["maps"]),
+            (MapEnumKeys, "MapEnumKeys", "map-enum-keys", ["maps", "nulls"]),
             (MapOfMaps, "MapOfMaps", "map-of-maps", ["maps"]),
             (Strs, "Strs", "strings", []),
             (Bytes, "Bytes", "bytes", []),
